@@ -121,3 +121,65 @@ class Stopping_on_task_report:
             out["no-decision-off-milestone"] = result["task_continues"] == True and result["milestone_reached"] == False  # noqa: E712
             out["frame"] = unchanged(rs1, rs0)
         return out
+
+
+def _bracket_system(mg, b):
+    return mg._rung_systems[b] if mg._rung_system_per_bracket else mg._rung_systems[0]
+
+
+@contract(HB_MAIN + ":HyperbandBracketManager.on_task_report", props=("C03",))
+class Manager_on_task_report_stopping:
+    """property-level rule for a trial of bracket b: decisions only at the bracket's own rung levels
+    rung_levels[b:], each rung entered once, stop at max_t"""
+
+    label = "HyperbandBracketManager.on_task_report(stopping)"
+    params = dict(self=Obj("StoppingManager"), trial_id=Str, result=Rec(epoch=Int, loss=Real))
+    proof_shapes = mgr_shapes(2)
+    shapes = mgr_shapes(2, entries=1) + mgr_shapes(1, entries=2)
+    raises = {"KeyError": "unknown_trial"}
+
+    def requires(s):
+        return {
+            "resource": 1 <= s.result["epoch"],
+            "bracket-valid": implies(s.trial_id in s.self._task_info, 0 <= s.self._task_info[s.trial_id] and s.self._task_info[s.trial_id] < s.self.num_brackets),
+            "modes": forall(range(0, len(s.self._rung_systems)), lambda i: s.self._rung_systems[i]._mode == s.self._rung_systems[0]._mode),
+        }
+
+    def unknown_trial(old):
+        return old.trial_id not in old.self._task_info
+
+    def ensures(old, s, result):
+        mg0 = old.self
+        mg1 = s.self
+        L = mg0.rung_levels
+        k = len(L)
+        b = mg0._task_info[old.trial_id]
+        res = old.result["epoch"]
+        out = {"bracket": result["bracket_id"] == b}
+        if res >= mg0._max_t:
+            out["stop-at-max"] = result["task_continues"] == False and result["milestone_reached"] == True  # noqa: E712
+            out["frame"] = unchanged(mg1._rung_systems, mg0._rung_systems)
+            return out
+        # own levels of the bracket: rung_levels[b:]
+        own = None
+        for i in range(k):
+            if i >= b and L[i] == res:
+                own = i
+        bi = None
+        for x in range(len(mg0._rung_systems)):
+            if (x == b) if mg0._rung_system_per_bracket else (x == 0):
+                bi = x
+        sys0 = mg0._rung_systems[bi]
+        sys1 = mg1._rung_systems[bi]
+        j = None
+        for i in range(len(sys0._rungs)):
+            if sys0._rungs[i].level == res:
+                j = i
+        if own is not None and j is not None and (old.trial_id not in sys0._rungs[j]):
+            out["decision-at-own-level"] = result["milestone_reached"] == True  # noqa: E712
+            out["entered-once"] = inserted(sys1._rungs[j], sys0._rungs[j], old.trial_id, old.result["loss"])
+            out["rule"] = stop_rule(sys1._rungs[j], old.result["loss"], result["task_continues"])
+        elif own is None:
+            out["no-decision-off-own-levels"] = result["task_continues"] == True and result["milestone_reached"] == False  # noqa: E712
+            out["frame"] = unchanged(mg1._rung_systems, mg0._rung_systems)
+        return out
